@@ -117,8 +117,8 @@ def workdir(name):
     return d
 
 
-def driver_run(mask, casefile, timeout=1200):
-    rc, out, dt = run(["timeout", str(timeout), os.path.join(OCAML, "driver"), mask, casefile])
+def driver_run(mask, casefile, timeout=1200, dmask=None):
+    rc, out, dt = run(["timeout", str(timeout), os.path.join(OCAML, "driver"), mask, casefile] + ([dmask] if dmask else []))
     mism = []
     done = None
     for line in out.splitlines():
